@@ -88,9 +88,9 @@ theorem C07_exhausted_device (d : Device) (signed : List (Nat × Nat)) (status :
   simp [Device.finalizeIfComplete, hs, hm]
 
 /-- Serialising and restoring either session object is invisible to the counters and the log
-(the model's restore is the identity; that the real stringify/parse is, is C14's correspondence). -/
+(the model's restore is stringify followed by parse of Model/StateCodec.lean, proved to give the object back; that the real field contents survive is C14's correspondence). -/
 theorem C07_restore_transparent (w : World) :
-    w.step .restoreDevice = w ∧ w.step .restoreReader = w := ⟨rfl, rfl⟩
+    w.step .restoreDevice = w ∧ w.step .restoreReader = w := ⟨step_restoreDevice w, step_restoreReader w⟩
 
 /-- non-vacuity: a concrete history with failed decryptions and restores in between; both
 directions have entries and satisfy the hypotheses above. -/
